@@ -349,7 +349,11 @@ func oracleC01(used []int) func(x *schedX) {
 			x.note("final p%d accepted=%d (%s) state=%s", n, acc, strings.TrimSuffix(kinds, "+"), final)
 			if acc > 1 {
 				x.kindsAll = append(x.kindsAll, strings.TrimSuffix(kinds, "+"))
-				x.viol("C01", x.scn+"/double-spend/"+strings.TrimSuffix(kinds, "+"), "secret of p%d was consumed by %d operations (%s): %s", n, acc, strings.TrimSuffix(kinds, "+"), strings.Join(x.obs, "; "))
+				prop := "C01"
+				if strings.Contains(kinds, "melt(") {
+					prop = "C01,C05" // an input of a melt whose payment succeeded / is in flight was usable elsewhere
+				}
+				x.viol(prop, x.scn+"/double-spend/"+strings.TrimSuffix(kinds, "+"), "secret of p%d was consumed by %d operations (%s): %s", n, acc, strings.TrimSuffix(kinds, "+"), strings.Join(x.obs, "; "))
 			}
 			if acc >= 1 && final != "SPENT" && final != "PENDING" {
 				x.viol("C01", x.scn+"/consumed-proof-reported-"+final, "p%d was consumed (%s) but the final state check reports %s: %s", n, kinds, final, strings.Join(x.obs, "; "))
